@@ -11,6 +11,8 @@ import (
 	"runtime"
 	"sync"
 	"sync/atomic"
+
+	"go.nanomsg.org/mangos/v3/internal/verifyield"
 )
 
 const verifPoison = 0xDB
@@ -54,12 +56,18 @@ func verifEvent(kind, info string) {
 }
 
 func verifFree(m *Message) {
+	verifyield.Point("message.Free")
 	if m.bsize != 0 && atomic.LoadInt32(&m.refcnt) <= 0 {
 		verifEvent("double-release", "")
 	}
 }
 
 func verifUse(m *Message, op string) {
+	if op == "Clone" {
+		// a reference must be taken before the message is shared, so a
+		// pause here must never let another owner's release reach zero
+		verifyield.Point("message.Clone")
+	}
 	if m.bsize != 0 && atomic.LoadInt32(&m.refcnt) <= 0 {
 		verifEvent("use-after-release:"+op, "")
 	}
